@@ -190,7 +190,7 @@ static void op_roundtrip(void)
   st = read_all(fname, &a, &na);
   if (st != eslEOF) { if (a) free_list(a, na); h_out("skip"); return; }
   fp = fopen("t2.fa", "wb");
-  for (i = 0; i < na; i++) esl_sqio_Write(fp, a[i], eslSQFILE_FASTA, FALSE);
+  for (i = 0; i < na; i++) if (esl_sqio_Write(fp, a[i], eslSQFILE_FASTA, FALSE) != eslOK || h_exception_seen) same = 0;
   fclose(fp);
   h = fnv_file("t2.fa", &nbytes);
   if (nbytes > 0) { st = read_all("t2.fa", &b, &nb); if (st != eslEOF) same = 0; }
@@ -244,8 +244,10 @@ static void h_op(void)
   if (!strcmp(op, "wfasta")) {
     FILE *fp = tmpfile();
     if (!sq) { h_out("closed"); fclose(fp); return; }
-    esl_sqio_Write(fp, sq, eslSQFILE_FASTA, FALSE);
-    op_file_hex(fp, "wfasta"); fclose(fp);
+    status = esl_sqio_Write(fp, sq, eslSQFILE_FASTA, FALSE);
+    if (status != eslOK || h_exception_seen) h_out("%s%s", h_status(status), h_exception_seen ? " exc" : "");
+    else op_file_hex(fp, "wfasta");
+    fclose(fp);
     return;
   }
   if (!strcmp(op, "roundtrip")) { if (!sqfp) h_out("closed"); else op_roundtrip(); return; }
@@ -432,8 +434,7 @@ static void h_op(void)
     fclose(fp);
   }
   else if (!strcmp(op, "toolfetch")) {
-    int64_t n; char *k; FILE *fp;
-    if (!sqfp->data.ascii.ssi) { h_out("bad-op"); return; }
+    int64_t n; char *k; FILE *fp;     /* without an open index the tool scans the file sequentially from the current position */
     if (!tool_go) { char *argv[3] = { "esl-sfetch", "f", "k" }; tool_go = esl_getopts_Create(options); esl_opt_ProcessCmdline(tool_go, 3, argv); }
     k = (char *) h_unhex(h_arg("key"), &n);
     fp = tmpfile();
@@ -443,7 +444,7 @@ static void h_op(void)
   else if (!strcmp(op, "toolmulti") || !strcmp(op, "toolmultisub")) {
     /* esl-sfetch -f <keyfile> / -Cf <gdffile>: the tool's own loops over a key file (written from the op's text= argument) */
     int64_t n; unsigned char *txt; FILE *fp, *kf; int saved; int sub = !strcmp(op, "toolmultisub");
-    if (!sqfp->data.ascii.ssi) { h_out("bad-op"); return; }
+    if (!sqfp->data.ascii.ssi && sub) { h_out("bad-op"); return; }      /* -f works without an index (sequential scan), -C needs one */
     if (!tool_go) { char *argv[3] = { "esl-sfetch", "f", "k" }; tool_go = esl_getopts_Create(options); esl_opt_ProcessCmdline(tool_go, 3, argv); }
     txt = h_unhex(h_arg("text") ? h_arg("text") : "-", &n);
     kf = fopen("t.keys", "wb"); fwrite(txt, 1, n, kf); fclose(kf); free(txt);
